@@ -1091,7 +1091,31 @@ def probe_fails(sim, p, who):
 # EVERY module (also nested ones: the product of an intervention, the pools of MixingPools) is observed after sim.init()
 # and again after sim.run()
 
-PROBE_NAMES = ('c07probe', 'c07probe2')
+PROBE_NAMES = ('c07probe', 'c07probe2', 'c07probe3', 'c07probe4', 'c07probe5')
+
+
+def zoo_probes(cfg):
+    """ probes riding along in a zoo run: on the sim's timeline; at twice the sim's dt; and, in sims with a numeric start, at
+        1.5 times the sim's dt (a step that does not divide most durations; on a date-based day/week timeline a fractional
+        step would only re-trigger the known constant-day-step defect) """
+    dt = F(repr(float(cfg.get('dt', 1.0))))      # multiples are taken of the decimal the user wrote (1.5 * 0.1 is not the float 0.15)
+    out = [make_probe(name=PROBE_NAMES[0]), make_probe(name=PROBE_NAMES[1], dt=float(2 * dt))]
+    start, unit = cfg.get('start'), cfg.get('unit', 'year')
+    if not isinstance(start, str) and unit in ('year', 'unitless'):
+        out.append(make_probe(name=PROBE_NAMES[2], dt=float(F(3, 2) * dt)))
+    # a probe that starts two sim steps late, and one for which ONLY the stop is given (two sim steps early)
+    if cfg.get('dur') is not None and F(repr(float(cfg['dur']))) >= 5 * dt:
+        dur = F(repr(float(cfg['dur'])))
+        if isinstance(start, str) and unit in ('day', 'week') and (2 * dt * ref.UNIT_DAYS[unit]).denominator == 1:
+            d0 = ref.to_date(cfg_spec(cfg)['start'])
+            day = lambda k: iso(d0 + dtm.timedelta(days=int(k * ref.UNIT_DAYS[unit])))
+            out.append(make_probe(name=PROBE_NAMES[3], start=day(2 * dt)))
+            if (dur * ref.UNIT_DAYS[unit]).denominator == 1: out.append(make_probe(name=PROBE_NAMES[4], stop=day(dur - 2 * dt)))
+        elif start is not None and not isinstance(start, str):
+            s0 = F(repr(float(start)))
+            out.append(make_probe(name=PROBE_NAMES[3], start=float(s0 + 2 * dt)))
+            out.append(make_probe(name=PROBE_NAMES[4], stop=float(s0 + dur - 2 * dt)))
+    return out
 
 
 def cfg_spec(cfg):
@@ -1156,14 +1180,13 @@ _ZOO_RUNS = {}
 
 def run_zoo(name, cfg):
     """ build -> (parameters the modules hold) -> init -> observe -> run -> observe again; cached per process.
-        Two probes ride along: one on the sim's timeline, one at twice the sim's dt """
+        Probes ride along (zoo_probes) """
     if name in _ZOO_RUNS: return _ZOO_RUNS[name]
     from harness import impl
     out = dict(spec=cfg_spec(cfg))
     try:
         def build():
-            probes = [make_probe(name=PROBE_NAMES[0]), make_probe(name=PROBE_NAMES[1], dt=2.0 * float(cfg.get('dt', 1.0)))]
-            sim = impl.build_sim(cfg, extra_analyzers=probes)
+            sim = impl.build_sim(cfg, extra_analyzers=zoo_probes(cfg))
             pre = {id(m): dict(unit=m.t.unit, start=m.t.start, stop=m.t.stop, dt=m.t.dt) for m in given_modules(sim)}
             sim.init()
             return sim, pre
@@ -1176,7 +1199,8 @@ def run_zoo(name, cfg):
     try:
         with_timeout(3 * TIME_LIMIT, sim.run)
         out['run'] = snapshot(sim, pre)
-        out['probe_fails'] = [f for i, pn in enumerate(PROBE_NAMES) for f in probe_fails(sim, sim.analyzers[pn], f'probe({"" if i == 0 else "dt=2*sim.dt"})')]
+        out['probe_fails'] = [f for pn, lbl in zip(PROBE_NAMES, ('', 'dt=2*sim.dt', 'dt=1.5*sim.dt', 'start=2 steps late', 'stop=2 steps early')) if pn in sim.analyzers
+                              for f in probe_fails(sim, sim.analyzers[pn], f'probe({lbl}) in sim{fmt_spec(out["spec"])}')]
     except (Exception, Hang) as e:
         out.update(run_err=err_kind(e), run_exc=f'{type(e).__name__}: {str(e)[:200]}')
     _ZOO_RUNS[name] = out
